@@ -544,7 +544,10 @@ impl SimWorld {
             op,
             seq,
         });
-        if let Some((_, at)) = g.read_failed.iter().find(|(p, _)| p == path) {
+        // (a path named several times is accessed several times; a failure of one access says
+        // nothing about the others)
+        let named = g.sc.argv.iter().filter(|a| a.as_str() == path).count();
+        if let Some((_, at)) = g.read_failed.iter().find(|(p, _)| p == path).filter(|_| named <= 1) {
             let at = *at;
             Self::violate(
                 g,
@@ -820,7 +823,10 @@ impl World for WorldRef {
             let avail = len.saturating_sub(pos);
             let n = (buf.len() as u64).min(avail).min(limit) as usize;
             let short = (n as u64) < (buf.len() as u64).min(avail);
-            buf[..n].copy_from_slice(&node.bytes[pos as usize..pos as usize + n]);
+            if n > 0 {
+                // (a position beyond the end, after another handle truncated the file, reads 0)
+                buf[..n].copy_from_slice(&node.bytes[pos as usize..pos as usize + n]);
+            }
             let end = pos + n as u64;
             if n > 0 && (end == 1 || end == 2) && len >= 3 {
                 let b = &node.bytes[..3];
